@@ -47,6 +47,11 @@ def run(ctx: Ctx) -> None:
     idx = ctx.idx
     ov = idx.find_class("OverloadedFunctionDef", OV)
     ctx.saw("classes", ov.qualname)
+    # decided by interpretation where possible (robust against helpers, generators, try/except, renamed locals); the lexical
+    # rules on the loop's shape below are the fallback when a method is not evaluable
+    from . import c15_semantic
+    semantic = c15_semantic.run(ctx)
+    shape_check = (lambda *a, **k: True) if semantic else ctx.check
     shapes = {}
     for meth in ("check_call", "synthesize_call"):
         f = ov.methods.get(meth)
@@ -57,7 +62,12 @@ def run(ctx: Ctx) -> None:
         loops = [n for n in f.node.body if isinstance(n, ast.For)]
         key = f"{f.qualname}#first-match-loop"
         if len(loops) != 1:
-            ctx.violation("R-C15.1", key, f.where, {"top_level_for_loops": len(loops)}, "variants are not tried in one pass over the variant list")
+            if not semantic:
+                ctx.violation("R-C15.1", key, f.where, {"top_level_for_loops": len(loops)}, "variants are not tried in one pass over the variant list")
+            copied_any = any(call_name(c) in ("deepcopy", "copy") for c in ast.walk(f.node) if isinstance(c, ast.Call))
+            ctx.check(copied_any, "R-C15.2", f"{f.qualname}#args-shared-across-attempts", f.where, {"copied_per_attempt": copied_any},
+                      "a rejected variant leaves the argument nodes partially rewritten / type-annotated; a later variant is then checked "
+                      "against different arguments than a direct call would see")
             continue
         loop = loops[0]
         facts: dict = {"iterates": ast.unparse(loop.iter)}
@@ -101,7 +111,7 @@ def run(ctx: Ctx) -> None:
         err_after = bool(after) and (must_raise(after) or (isinstance(after[-1], ast.Return) and isinstance(after[-1].value, ast.Call) and call_name(after[-1].value) == "_call_error"))
         err_in_loop = any(isinstance(n, ast.Raise) or (isinstance(n, ast.Call) and call_name(n) == "_call_error") for st in loop.body for n in walk_no_nested(st))
         facts.update({"error_after_loop": err_after, "error_inside_loop": err_in_loop, "has_else": bool(loop.orelse)})
-        ctx.check(ok_iter and not skips and len(withs) == 1 and not nested_withs and ok_attempt and err_after and not err_in_loop and not loop.orelse,
+        shape_check(ok_iter and not skips and len(withs) == 1 and not nested_withs and ok_attempt and err_after and not err_in_loop and not loop.orelse,
                   "R-C15.1", key, f.where, facts,
                   "a call to an overloaded function does not resolve to the first listed variant that accepts it (variants reordered, skipped, "
                   "tried with other arguments, failures of other kinds swallowed, or rejected before all were tried)")
@@ -115,10 +125,10 @@ def run(ctx: Ctx) -> None:
                   "a rejected variant leaves the argument nodes partially rewritten / type-annotated; a later variant is then checked "
                   "against different arguments than a direct call would see")
     ce = ov.methods.get("_call_error")
-    ctx.check(ce is not None and must_raise([s for s in ce.node.body if not (isinstance(s, ast.Expr) and isinstance(s.value, ast.Constant))]) , "R-C15.1",
+    shape_check(ce is not None and must_raise([s for s in ce.node.body if not (isinstance(s, ast.Expr) and isinstance(s.value, ast.Constant))]) , "R-C15.1",
               f"{ov.qualname}._call_error#raises", ce.where if ce else ov.where, {}, "the no-match path does not reject the call")
     if len(shapes) == 2:
-        ctx.check(shapes["check_call"] == shapes["synthesize_call"], "R-C15.1", f"{ov.qualname}#siblings-agree", ov.where, {},
+        shape_check(shapes["check_call"] == shapes["synthesize_call"], "R-C15.1", f"{ov.qualname}#siblings-agree", ov.where, {},
                   "checking and synthesis position resolve overloads differently")
 
     # decorator builds the list in argument order
